@@ -31,8 +31,12 @@ def spec(tier, seed):
         if not (k == 1 and pv):
             unc += ["inherited optional mode"]
         jobs.append(Job("h263", g.hdr_std_name(p, k, s, pv), 2400, allow_uncovered=tuple(unc), params={"mode": "standard", "phase": p, "kind": ["PTYPE", "PLUSPTYPE UFEP=000", "PLUSPTYPE UFEP=001", "PLUSPTYPE UFEP=001 + CPFMT"][k], "scalability": s, "previous_header": pv}, group="standard"))
+    from vf import core_scenarios as cs
+    cgen, cjobs = cs.jobs_for(tier, seed, quick_n=6)
+    jobs += [j for j in cjobs if not j.is_kf_twin]
+    CORE_GEN = cgen
     return {
-        "jobs": jobs, "generated": {"h263/src/parser/picture.rs": gen},
+        "jobs": jobs, "generated": {"h263/src/parser/picture.rs": gen, "h263/src/decoder/state.rs": CORE_GEN},
         "functions": FUNCS, "stubs": STUBS,
         "rule": "all 256 stream bits symbolic (so every field value and every combination of fields, incl. all Sorenson 8/16-bit sizes, all PTYPE/OPPTYPE/MPPTYPE patterns, CPFMT, EPAR, CPCFC+ETR, UUI, SSS, ELNUM/RLNUM, RPSMF, TRPI/TRP, BCI, PQUANT, CPM/PSBI, TRB, DBQUANT, up to 2 PEI bytes); structure enumerated: mode x start phase 0..7 (= 0..7 stuffing bits) x header kind (PTYPE / PLUSPTYPE UFEP=000 / UFEP=001 / UFEP=001+custom format) x scalability x previous header present; oracle: reference header parser written from H.263 5.1 (accept/reject, every public field, consumed bit count)",
         "bounds": ["stream of 256 bits; at most 2 PEI bytes", "unwind 11 with unwinding assertions"],
